@@ -161,6 +161,18 @@ Theorem c05_simple_server_accept_total :
 Proof. exact accept_loop_total. Qed.
 Print Assumptions c05_simple_server_accept_total.
 
+(** ... in particular with the FBaseProcessor of Model/Processor.v (the C14 model: a request whose
+    header cannot be read ends the connection, everything else is answered): on every byte stream
+    and chunking the connection loop ends without a crash and serves exactly the frames of the stream *)
+Theorem c05_simple_server_base_processor_total :
+  forall svc h etext maxlen chunks final, chunking_ok chunks ->
+  let r := accept_loop (base_process svc h etext) (S (length (concat chunks))) maxlen (fresh chunks final) in
+  accept_end_ok (snd r) /\
+  r = flat_accept_loop (base_process svc h etext) (S (length (concat chunks))) maxlen final (concat chunks) /\
+  (exists rest, concat chunks = frames_wire (fst r) ++ rest).
+Proof. exact accept_base_processor_total. Qed.
+Print Assumptions c05_simple_server_base_processor_total.
+
 (** non-vacuity: a stream of two frames cut into awkward chunks, then a header over the limit *)
 Example c05_framing_example :
   let chunks := [[0;0]; [0;2;7]; [8;0;0;0]; [1;9;0;0;0]; [200]] in
